@@ -948,6 +948,17 @@ def c06Tasks (tasks : List TaskCfg) : List TrustVerif.C06.Task :=
   (List.range tasks.length).zip tasks |>.map fun (i, tk) =>
     { interval := tk.interval, single := tk.single.map (fun _ => i), priority := tk.priority, programs := [] }
 
+/-- `ready.sort_by_key(|e| (priority, due_at, index))`: a stable sort by the C06 key, written as
+insertion sort so that it is structurally recursive (kernel-evaluable in the concrete
+witnesses).  Any stable sort returns the same list. -/
+def insertReady (r : TrustVerif.C06.Ready) : List TrustVerif.C06.Ready → List TrustVerif.C06.Ready
+  | [] => [r]
+  | x :: rest => if TrustVerif.C06.keyLe r x then r :: x :: rest else x :: insertReady r rest
+
+def sortReady : List TrustVerif.C06.Ready → List TrustVerif.C06.Ready
+  | [] => []
+  | r :: rest => insertReady r (sortReady rest)
+
 /-- `Runtime::execute_cycle`.  Returns the new runtime, the new disk and the result. -/
 def cycle (rt : Runtime) (disk : Disk) : Runtime × Disk × Option Err :=
   match rt.fault with
@@ -961,7 +972,7 @@ def cycle (rt : Runtime) (disk : Disk) : Runtime × Disk × Option Err :=
       | .error e => (applyFault rt0 e, disk, some e)
       | .ok svs =>
         let c := TrustVerif.C06.collect (c06Tasks rt.tasks) rt.taskState (fun i => svs.getD i false) rt.time
-        let order := (TrustVerif.C06.order c.2).map (·.index)
+        let order := (sortReady c.2).map (·.index)
         let rt1 := { rt0 with taskState := c.1 }
         match execTasks rt.fbs rt.programs rt.tasks s0 order with
         | .error e => (applyFault rt1 e, disk, some e)
